@@ -66,7 +66,8 @@ Inductive stmt :=
 | SGuarded (body : list stmt)                      (* with self._wrapper: *)
 | SAwaitPrim (p : prim)
 | SAwaitSelf (o : opname)                          (* await self.<op>() with default arguments *)
-| SAwaitHook (h : hook)
+| SAwaitHook (h : hook)                            (* listeners: user code, may raise *)
+| SEncodeMetadata                                  (* headers.extend(encode_metadata(..)): may raise *)
 | SHelper (h : helper)
 | SResetNowait                                     (* self._stream.reset_nowait() *)
 | SIf (c : cond) (t e : list stmt)
